@@ -145,6 +145,10 @@ func (p *Packer) Pack(src string, w io.Writer) (*Meta, error) {
 	// Track the metadata details as we go.
 	meta := &Meta{}
 
+	// Lstat follows a symlink when the path ends with a separator, which
+	// would hide from the check below that the root is a symlink.
+	src = filepath.Clean(src)
+
 	info, err := os.Lstat(src)
 	if err != nil {
 		return nil, err
